@@ -187,10 +187,18 @@ def gen_inputs(rng, design, ncyc):
   return seq
 
 
-def reference_trace(design, seq, reset_cycles=2):
-  """[(snapshot after eval, snapshot after tick)] per cycle, or None if the reference does not settle"""
+def reference_trace(design, seq, reset_cycles=2, sim_reset=False):
+  """[(snapshot after eval, snapshot after tick)] per cycle, or None if the reference does not settle.
+  sim_reset: the run starts with the simulator's own sim_reset() - three clock edges with reset high, the combinational logic
+  evaluated before each of them, all inputs at their initial value 0 - instead of reset cycles driven by the harness"""
   ref = G.Ref(design)
   out = []
+  if sim_reset:
+    reset_cycles = 0
+    ref.set_input("s.reset", 1)
+    for _ in range(3):
+      if ref.settle() is None: return None, ref
+      if ref.tick() is None: return None, ref
   for c, inp in enumerate(seq):
     ref.set_input("s.reset", int(c < reset_cycles))
     for p, v in inp.items():
